@@ -402,6 +402,7 @@ func (i *interpreter) runPath(pkg *ssa.Package, fn *ssa.Function, prefix []Decis
 	i.callDepth = 0
 	i.now = 0
 	i.hasFixedNow = false
+	i.hasWindowNow = false
 	i.setLocalZone(int(0))
 	defer func() {
 		ps := i.ps
